@@ -186,7 +186,7 @@ def minimise(prop, spec, schedule, violations, runs=2000, secs=60):
         for ti in range(len(best[0]["tasks"])):
             for oi in range(len(best[0]["tasks"][ti]["ops"])):
                 op = best[0]["tasks"][ti]["ops"][oi]
-                key = "paths" if op["op"] == "stream" else "argv" if op["op"] == "cli" else None
+                key = "paths" if op["op"] == "stream" else "argv" if op["op"] in ("cli", "tokcli") else None
                 if key is None:
                     continue
                 i = len(op[key]) - 1
